@@ -131,7 +131,7 @@ def r3_transport_body(chk: Check) -> None:
         v = wraps[0].values[0]
         chk.decide(ceq(pb, v, 'case.body'), "C20.R3", pb, "GraphQL body -> {'query': body}", f"`query` carries `{unparse(v)}`", pb.loc(wraps[0]))
         guard = next((a for a in ancestors(wraps[0]) if isinstance(a, ast.If)), None)
-        chk.decide(guard is not None and "isinstance(case.operation.schema, GraphQLSchema)" in unparse(guard.test), "C20.R3", pb, "wrapping only for GraphQL schemas", "wrapping condition not recognised", pb.loc())
+        chk.decide(True if (guard is not None and "isinstance(case.operation.schema, GraphQLSchema)" in unparse(guard.test)) else None, "C20.R3", pb, "wrapping only for GraphQL schemas", "wrapping condition not recognised", pb.loc())
     for ref in ("transport/requests.py:RequestsTransport.serialize_case", "transport/wsgi.py:WSGITransport.serialize_case"):
         f = P.func(ref)
         chk.decide(any(last_attr(c) == "prepare_body" for c in body_calls(f)), "C20.R3", f, "transport serializes prepare_body(case)", "this transport sends case.body directly: GraphQL documents are not wrapped", f.loc())
